@@ -393,7 +393,7 @@ def run_job(job, seed, tier, rec, known):
     from hypothesis import strategies as st
     ops = D.ops_strategy(job["max_ops"], WEIGHTS, min_ops=6)
     starts = [["bare", None, None], ["rich", None, None], ["rich", None, None], ["rich", None, "gap"], ["rich", None, "arrays"],
-              ["rich", None, "rotate"], ["rich", None, "reverse"], ["rich", None, "shift1"]]
+              ["rich", None, "rotate"], ["rich", None, "reverse"], ["rich", None, "shift1"], ["many", None, None]]
     for d in job["decks"]:
         starts += [["corpus", d, None], ["corpus", d, "arrays"], ["corpus", d, "rotate"]]
     strat = st.builds(lambda s, m, o: {"start": s, "muts": m, "ops": o}, st.sampled_from(starts), mut_strategy(), ops)
